@@ -133,6 +133,9 @@ pub struct SemGen<'a, 'b, 'o> {
   /// overflows the stack of both validators: open finding C05-F2)
   in_args_of: Vec<usize>,
   no_socket_refs: bool,
+  /// number of extra operand expressions to generate in the context of the root rule (C09)
+  pub operands_wanted: usize,
+  pub operands: Vec<Ty1>,
 }
 
 fn name_ty2(n: &str) -> Ty2 {
@@ -141,7 +144,7 @@ fn name_ty2(n: &str) -> Ty2 {
 
 impl<'a, 'b, 'o> SemGen<'a, 'b, 'o> {
   pub fn new(t: &'a mut Tape<'b>, o: &'o GenOpts) -> Self {
-    SemGen { t, o, plan: vec![], cur: 0, params: vec![], can_recurse: false, in_args_of: vec![], no_socket_refs: false }
+    SemGen { t, o, plan: vec![], cur: 0, params: vec![], can_recurse: false, in_args_of: vec![], no_socket_refs: false, operands_wanted: 0, operands: vec![] }
   }
 
   pub fn schema(&mut self) -> Schema {
@@ -226,6 +229,17 @@ impl<'a, 'b, 'o> SemGen<'a, 'b, 'o> {
       }
     }
     self.params.clear();
+    if self.operands_wanted > 0 {
+      // expressions that may refer to the auxiliary rules (everything after the root)
+      self.cur = 0;
+      self.can_recurse = false;
+      self.operands.clear();
+      for _ in 0..self.operands_wanted {
+        let d = self.o.depth.min(2);
+        let t = self.ty1(d);
+        self.operands.push(t);
+      }
+    }
     Schema(rules)
   }
 
